@@ -26,13 +26,6 @@
 
 using namespace vrt;
 
-#if VRT_TSAN
-// Formal (memory-model) race inside tbbmalloc, reported to the coordinator: Block::shareOrphaned waits for the foreign freeing thread with a
-// relaxed load of nextPrivatizable, so the store in Bin::addPublicFreeListBlock is not ordered before the later re-use of the slab header by
-// OrphanedBlocks::cleanup -> Backend::coalescAndPutList. Same word, coherence-ordered, no observable effect on x86. Only reports whose stacks
-// contain addPublicFreeListBlock are silenced.
-extern "C" const char* __tsan_default_suppressions() { return "race:rml::internal::Bin::addPublicFreeListBlock\n"; }
-#endif
 #if VRT_ASAN
 // vrt's per-thread hook records are "never freed" by design; the records of exited threads would be reported at exit.
 extern "C" const char* __lsan_default_suppressions() { return "leak:vrt::hook_thread\n"; }
